@@ -128,6 +128,10 @@ def _labelled_expr(ctx: Ctx, fn: FunctionInfo, e: ast.AST, seen: set, depth: int
 
 def run(ctx: Ctx) -> None:
     prog, res = ctx.prog, ctx.res
+    from .grammodel import analysis_rule
+    ctx.rule("C11.R6", "the abstract-expansion table that expansion-depthing metadata adds is the shortest chain of abstract expansions "
+                       "(grammar analysis interpreted end to end on the model grammars)")
+    ctx.floor("C11.R6", analysis_rule(ctx, "C11.R6", ("hops",)), 16, "model grammar x mode")
     ctx.rule("C11.R1", "every program returned by a representation entry point has passed through relabel_nodes")
     ctx.rule("C11.R2", "children enumeration reaches list elements: no tautologically shadowed branch, no TYPE_CHECKING-only name at run time")
     ctx.rule("C11.R3", "every relabel_nodes call passes is_list = isinstance(node, list)")
